@@ -300,3 +300,84 @@ func HarnessC01FlushShutdown() {
 
 // the sequential scenario once more, for the tier in which the batch timer may fire
 func HarnessC01SeqTimer() { HarnessC01Seq() }
+
+// ---- C01.shutdownshutdown: Shutdown called from two goroutines: whichever
+// call returns nil, the spans ended before it are with the exporter and no
+// export begins afterwards
+func HarnessC01ShutdownShutdown() {
+	stopped := false
+	e := &c01Exporter{stopped: &stopped}
+	bsp := NewBatchSpanProcessor(e, WithMaxQueueSize(2), WithMaxExportBatchSize(1+vndChoice(2)), WithBatchTimeout(time.Second), WithExportTimeout(0)).(*batchSpanProcessor)
+	bsp.OnEnd(c01Span("s0", true))
+	bsp.OnEnd(c01Span("s1", true))
+	var wg sync.WaitGroup
+	wg.Add(2)
+	for i := 0; i < 2; i++ {
+		go func() {
+			defer wg.Done()
+			if bsp.Shutdown(context.Background()) == nil {
+				vndGhostStore(&stopped, true)
+				vndReach("shutdown-nil")
+				vndAssert(e.count("s0") == 1 && e.count("s1") == 1, "spans-ended-before-shutdown-are-exported-when-any-shutdown-call-returns-nil")
+			}
+		}()
+	}
+	wg.Wait()
+	vndReach("joined")
+	vndAssert(e.shutdowns == 1, "exporter-shut-down-exactly-once")
+	c01Common(e, c01Cfg{queue: 2, batch: 2}, []string{"s0", "s1"})
+}
+
+// ---- C01.timeout: a per-export deadline (ExportTimeout > 0) that may pass
+// during a slow export; the exporter honours its context
+type c01TimeoutExporter struct {
+	c01Exporter
+	timedOut int
+}
+
+func (e *c01TimeoutExporter) ExportSpans(ctx context.Context, spans []ReadOnlySpan) error {
+	err := e.c01Exporter.ExportSpans(ctx, spans)
+	if ctx.Err() != nil {
+		vndGhost(func() { e.timedOut++ })
+		return ctx.Err()
+	}
+	return err
+}
+
+func HarnessC01ExportTimeout() {
+	stopped := false
+	e := &c01TimeoutExporter{c01Exporter: c01Exporter{stopped: &stopped}}
+	blocking := vndChoice(2) == 1
+	opts := []BatchSpanProcessorOption{WithMaxQueueSize(2), WithMaxExportBatchSize(1), WithBatchTimeout(time.Hour), WithExportTimeout(time.Second)}
+	if blocking {
+		opts = append(opts, WithBlocking())
+	}
+	bsp := NewBatchSpanProcessor(e, opts...).(*batchSpanProcessor)
+	bsp.OnEnd(c01Span("s0", true))
+	bsp.OnEnd(c01Span("s1", true))
+	if vndChoice(2) == 1 {
+		if bsp.ForceFlush(context.Background()) == nil {
+			vndReach("flush-nil")
+			for _, n := range []string{"s0", "s1"} {
+				vndAssert(e.count(n) == 1 || atomic.LoadUint32(&bsp.dropped) > 0, "spans-ended-before-flush-are-exported-when-flush-returns-nil")
+			}
+		}
+	}
+	bsp.OnEnd(c01Span("s2", true))
+	if bsp.Shutdown(context.Background()) == nil {
+		vndGhostStore(&stopped, true)
+		vndReach("shutdown-nil")
+		for _, n := range []string{"s0", "s1", "s2"} {
+			vndAssert(e.count(n) == 1 || atomic.LoadUint32(&bsp.dropped) > 0, "spans-ended-before-shutdown-are-exported-when-shutdown-returns-nil")
+			if blocking {
+				vndAssert(e.count(n) == 1, "blocking-mode-drops-nothing")
+			}
+		}
+	}
+	if e.timedOut > 0 {
+		vndReach("export-timed-out")
+	}
+	bsp.OnEnd(c01Span("s3", true)) // after shutdown: ignored
+	vndAssert(e.count("s3") == 0, "nothing-exported-after-shutdown-returned")
+	c01Common(&e.c01Exporter, c01Cfg{queue: 2, batch: 1}, []string{"s0", "s1", "s2", "s3"})
+}
